@@ -4,6 +4,7 @@ import RModel.Model.RenamePlan
 import RModel.Gen.Acronyms
 import RModel.Gen.RenameTables
 import RModel.Lemmas.RenamePlan
+import RModel.Lemmas.CoerceSafe
 import RModel.Props.C02ren
 /-
   C08 — Path renames are complete, conflict-free and composable.   (property theorems only; lemmas are in
@@ -41,8 +42,9 @@ import RModel.Props.C02ren
   `overlapping_roots_before_and_after_fix`, `symlink_to_root_before_and_after_fix` record the defects repaired by
   4d2e5a7 / ed3f0d7 on the old-style functions; `flags_respected`, `root_filter_exact` are the positive statements
   after 4ad17ef / ed3f0d7.
-  File-name coercion (`applyCoercion`) enters the general theorems through the contract `CoerceSafe`
-  (its result is a usable file name), which is checked differentially; concrete instances are evaluated.
+  File-name coercion (`applyCoercion`) used to enter the general theorems through a contract `CoerceSafe` (its result is a
+  usable file name) that was only checked differentially; it is a theorem about the model now
+  (`coerceSafe_of_goodVals`, lemmas in `Lemmas/CoerceSafe.lean`), so the planner theorems assume nothing about coercion.
 -/
 namespace C08
 open B Fs Apply RenamePlan RenamePlanL
@@ -62,9 +64,21 @@ def GoodVal (v : Bytes) : Prop := (47 : UInt8) ∉ v ∧ v.any isAlnum = true
 def GoodVals (vmap : List VEntry) : Prop :=
   ∀ v ∈ vmap, v.key ≠ [] ∧ GoodVal v.val ∧ (∀ a, v.amb = some a → GoodVal a)
 
-/-- contract of file-name coercion: whatever it returns is a usable file name -/
+/-- file-name coercion returns usable file names: for a name without `/`, whatever it returns is non-empty, slash-free
+    and not `.`.  This used to be a CONTRACT (a hypothesis of the planner theorems, or coercion switched off); it is a
+    theorem about the model of `coercion.rs::apply_coercion` now (`coerceSafe_of_goodVals`). -/
 def CoerceSafe (T : Tables) (vmap : List VEntry) : Prop :=
-  ∀ (name : Bytes) (v : VEntry) (n : Bytes), v ∈ vmap → applyCoercion T name v.key v.val = some n → SafeName n
+  ∀ (name : Bytes) (v : VEntry) (n : Bytes), (47 : UInt8) ∉ name → v ∈ vmap →
+    applyCoercion T name v.key v.val = some n → SafeName n
+
+/-- COERCION IS SAFE, for every table of extensions / acronyms, every variant map with usable values and every name:
+    `tokenize` yields non-empty alphanumeric words (at least one when the replacement has a letter or digit),
+    `render_tokens` of them has a letter or digit and otherwise only `_ - . space`, and `replace_case_insensitive`
+    copies bytes of the name or of the rendering and inserts the rendering at least once. -/
+theorem coerceSafe_of_goodVals (T : Tables) (vmap : List VEntry) (hv : GoodVals vmap) : CoerceSafe T vmap := by
+  intro name v n hs hmem h
+  obtain ⟨hk, hval, _⟩ := hv v hmem
+  exact CoerceSafeL.applyCoercion_safe T hs hk hval.2 h
 
 /-- path components contain no `/` -/
 def SlashFree (es : List Entry) : Prop := ∀ e ∈ es, ∀ c ∈ e.1, (47 : UInt8) ∉ c
@@ -145,8 +159,9 @@ theorem one_rename_per_name (T : Tables) (o : Opts) (vmap : List VEntry) (es : L
 /-- what `newNameFor` returns is a usable file name — needs: keys non-empty, replacement texts without `/` and with
     an alphanumeric, the old name without `/`, and the coercion contract (or coercion off) -/
 theorem newName_safe (T : Tables) (o : Opts) (vmap : List VEntry) (hv : GoodVals vmap)
-    (hc : o.coerce = false ∨ CoerceSafe T vmap) (name n : Bytes) (hs : (47 : UInt8) ∉ name)
+    (name n : Bytes) (hs : (47 : UInt8) ∉ name)
     (h : newNameFor T o vmap name = some n) : SafeName n := by
+  have hc : o.coerce = false ∨ CoerceSafe T vmap := Or.inr (coerceSafe_of_goodVals T vmap hv)
   unfold newNameFor at h
   cases hf : firstKey vmap name with
   | none => rw [hf] at h; cases h
@@ -211,7 +226,7 @@ theorem newName_safe (T : Tables) (o : Opts) (vmap : List VEntry) (hv : GoodVals
         · rw [hc] at hco; cases hco
         · cases ha : applyCoercion T name v.key v.val with
           | none => simpa using plainNameSafe
-          | some c => simpa using hc name v c hmem ha
+          | some c => simpa using hc name v c hs hmem ha
       · exact plainNameSafe
     simp only at h
     split at h
@@ -221,14 +236,14 @@ theorem newName_safe (T : Tables) (o : Opts) (vmap : List VEntry) (hv : GoodVals
 /-- ONLY THE LAST COMPONENT.  Every collected rename satisfies `C02ren.LastOnly`:
     `new_path = path.parent ++ [new name]`, new name non-empty. -/
 theorem only_last_component (T : Tables) (o : Opts) (vmap : List VEntry) (es : List Entry)
-    (hv : GoodVals vmap) (hc : o.coerce = false ∨ CoerceSafe T vmap) (hs : SlashFree es) :
+    (hv : GoodVals vmap) (hs : SlashFree es) :
     C02ren.LastOnly (collect T o vmap es) := by
   rw [C02ren.lastOnly_iff]
   intro r hr
   obtain ⟨e, he, hp⟩ := mem_collect.1 hr
   obtain ⟨h1, _, _, _, name, n, hname, hn, hnew⟩ := planEntry_some hp
   have hne : e.1 ≠ [] := by intro h0; rw [h0] at hname; cases hname
-  have hsafe := newName_safe T o vmap hv hc name n (hs e he name (List.mem_of_getLast? hname)) hn
+  have hsafe := newName_safe T o vmap hv name n (hs e he name (List.mem_of_getLast? hname)) hn
   refine ⟨by rw [h1]; exact hne, n, hsafe.1, ?_⟩
   rw [hnew, withFileName_safe _ hsafe, h1]
 
@@ -355,7 +370,7 @@ theorem every_root_contributes (T : Tables) (o : Opts) (vmap : List VEntry) (ess
 
 /-- the guards of `C02ren.renamePhase_ok` hold for every plan the planner accepts, for any list of search roots -/
 theorem accepted_guards (T : Tables) (o : Opts) (vmap : List VEntry) (t : Tree) (roots : List Path) (rs : List Ren)
-    (hwf : C02ren.TreeWF t) (hv : GoodVals vmap) (hc : o.coerce = false ∨ CoerceSafe T vmap)
+    (hwf : C02ren.TreeWF t) (hv : GoodVals vmap)
     (hsl : ∀ e ∈ t, ∀ c ∈ e.1, (47 : UInt8) ∉ c) (hg : NoGitRoots roots)
     (hacc : planRenames T o vmap t roots = .ok rs) :
     C02ren.LastOnly rs ∧ C02ren.DistinctSources rs ∧ C02ren.KindsOk t rs ∧ C02ren.SiblingDestsDistinct rs := by
@@ -370,7 +385,7 @@ theorem accepted_guards (T : Tables) (o : Opts) (vmap : List VEntry) (t : Tree) 
   have hlo : C02ren.LastOnly rs := by
     intro r hr
     obtain ⟨root, _, rs0, hok, hr0, _, _⟩ := src r hr
-    exact only_last_component T o vmap _ hv hc (slashFree_entriesOf t root hsl) r
+    exact only_last_component T o vmap _ hv (slashFree_entriesOf t root hsl) r
       (accepted_subset T o vmap _ rs0 hok r hr0)
   have hdd : ∀ r ∈ rs, ∀ r' ∈ rs, r.newPath = r'.newPath → r = r' := by
     intro r hr r' hr' hnew
@@ -410,7 +425,7 @@ theorem accepted_guards (T : Tables) (o : Opts) (vmap : List VEntry) (t : Tree) 
     `moveAll rs t` — every node sits at `finalPath rs q`, i.e. its ancestors' renames and its own applied —
     nodes keep content/mode/target, and a path without a renamed prefix has not moved. -/
 theorem apply_places_everything (T : Tables) (o : Opts) (vmap : List VEntry) (t : Tree) (roots : List Path)
-    (rs : List Ren) (hwf : C02ren.TreeWF t) (hv : GoodVals vmap) (hc : o.coerce = false ∨ CoerceSafe T vmap)
+    (rs : List Ren) (hwf : C02ren.TreeWF t) (hv : GoodVals vmap)
     (hsl : ∀ e ∈ t, ∀ c ∈ e.1, (47 : UInt8) ∉ c) (hg : NoGitRoots roots)
     (hacc : planRenames T o vmap t roots = .ok rs) (hpre : preflightOk t rs = true) :
     (renamePhase t [] (sortRens rs)).outcome = .ok ∧
@@ -420,7 +435,7 @@ theorem apply_places_everything (T : Tables) (o : Opts) (vmap : List VEntry) (t 
     (∀ q, (∀ r ∈ rs, pre r.path q = false) → C02ren.finalPath rs q = q) ∧
     (∀ r ∈ rs, ∃ c, r.newPath = r.path.dropLast ++ [c] ∧
       C02ren.finalPath rs r.path = C02ren.finalPath rs r.path.dropLast ++ [c]) := by
-  obtain ⟨h1, h2, h4, hsd⟩ := accepted_guards T o vmap t roots rs hwf hv hc hsl hg hacc
+  obtain ⟨h1, h2, h4, hsd⟩ := accepted_guards T o vmap t roots rs hwf hv hsl hg hacc
   have h5 : C02ren.DestFree t rs := (C02ren.destFree_iff_preflight t rs h1 hwf).2 ⟨hpre, hsd⟩
   have hok := C02ren.renamePhase_ok t rs h1 h2 hwf h4 h5
   exact ⟨hok.1, hok.2.1, fun e he => C02ren.lookup_after t rs h1 hwf h5 e he, C02ren.nodes_preserved rs t,
@@ -586,10 +601,10 @@ theorem example_apply :
        ([b!"proj", b!"Baz-Qux.md"], .file b!"w" 420),
        ([b!"proj", b!"notes.txt"], .file b!"n" 420)] := by decide +kernel
 
-/-- the theorem applied to the example with coercion switched off (no contract needed) -/
+/-- the theorem applied to the example, coercion ON and the real tables (no contract is left to assume) -/
 example : (renamePhase exTree [] (sortRens exPlan)).tree = C02ren.moveAll exPlan exTree :=
-  (apply_places_everything T0 { o0 with coerce := false } vm0 exTree [[b!"proj"]] exPlan (by decide +kernel)
-    (by decide +kernel) (Or.inl rfl) (by decide +kernel) (by decide) (by decide +kernel) (by decide +kernel)).2.1
+  (apply_places_everything T0 o0 vm0 exTree [[b!"proj"]] exPlan (by decide +kernel)
+    (by decide +kernel) (by decide +kernel) (by decide) example_plan (by decide +kernel)).2.1
 
 /-- same-style names in the six name styles, with affix words and extensions (coercion on, real tables) -/
 theorem example_same_style :
